@@ -76,23 +76,7 @@ def consume_grouped(wd, tag, items):
 
 
 def consume_dirs(wd, name, messages, dirs):
-    from . import tlc
-    consts = {
-        'Cases': '<<' + ', '.join('[msg |-> %s]' % tlc.tla_val(list(m)) for m in messages) + '>>',
-        'Editions': '{4}', 'Compressions': '{FALSE}', 'SubsetCounts': '{1}', 'Fmax': '0', 'Seeds': '{0}',
-        'Slack': '0', 'Mode': '"consume"', 'ResetPolicy': '"fm94"',
-        'TableDirs': tlc.tla_val(list(dirs)),
-        'MasterVersion': '0', 'LocalVersion': '0', 'Centre': '0', 'SubCentre': '0',
-    }
-    text = tlc.mc_module(name, ['FM94Gen'], consts)
-    cfg = tlc.mc_cfg(consts, invariants=['TypeOK', 'MissingIffAllOnes', 'LinksPointBack', 'Emit'])
-    res = tlc.run(wd, name, cfg, text, workers=16, lazy_emitted=True, coverage=False, timeout=3000)
-    tlc.require_ok(res, name)
-    out = {}
-    for b in res.iter_emitted():
-        out[b['tid']] = b
-    if len(out) != len(messages):
-        raise MachineryError('consume run %s returned %d parses for %d messages' % (name, len(out), len(messages)))
+    res, out = fm94.consume_run(wd, name, messages, dirs=list(dirs))
     return res, out
 
 
